@@ -121,6 +121,7 @@ inline void build_stmt(Built &B, z_basic_block_t &bb, const Stmt &s) {
   case S_ARR_STORE: bb.array_store(V(s.lhs), B.exp(s.e1), B.exp(s.e3), z_lin_exp_t(z_number(s.k)), s.flag); break;
   case S_ARR_LOAD: bb.array_load(V(s.lhs), V(s.a), B.exp(s.e1), z_lin_exp_t(z_number(s.k))); break;
   case S_ARR_ASSIGN: bb.array_assign(V(s.lhs), V(s.a)); break;
+  case S_ARR_STORE_RANGE: bb.array_store_range(V(s.lhs), B.exp(s.e1), B.exp(s.e2), B.exp(s.e3), z_lin_exp_t(z_number(s.k))); break;
   case S_CALL: {
     std::vector<z_var> l, a;
     for (int v : s.lhss) l.push_back(V(v));
